@@ -34,6 +34,10 @@ def obligations(tier, seed):
     obs.append(dict(name='run/OP_ADD/args1.1/out/-q', kind='run', script='OP_ADD', args=[1, 1], mode='out', opts=['-q']))
     obs.append(dict(name='run/OP_ADD/args5.1/out/-q', kind='run', script='OP_ADD', args=[5, 1], mode='out', opts=['--quiet']))
     obs.append(dict(name='run/OP_1/dec-args', kind='run', script='OP_ADD', args=['d2', 'd1'], mode='out', opts=[]))
+    # long items: the printed line grows with the item (a 520-byte item is a 1040-character line)
+    for n in (75, 76, 255, 256, 511, 512, 520):
+        obs.append(dict(name='run/long-item-%d/out' % n, kind='run', script='OP_NOP', args=[('L', n)], mode='out', opts=[]))
+    obs.append(dict(name='run/long-items-520-1-520/in', kind='run', script='OP_SWAP', args=[('L', 520), 1, ('L', 519)], mode='in', opts=[]))
     obs.append(dict(name='verbose-refused', kind='verbose', script='OP_1', args=[], mode='out', opts=['-v']))
     return obs
 
@@ -54,7 +58,7 @@ def build_args(ob, V=None):
             cs = hexchars('sc%d' % i, (len(t) - 2) // 2); sc_chars += list(b'0x') + cs; sc_syms.append((i, cs))
         else: sc_chars += list(t.encode())
     sc_chars.append(ord(']'))
-    args = []; arg_syms = []
+    args = []; arg_syms = []; long_syms = []
     for i, a in enumerate(ob['args']):
         if isinstance(a, str) and a.startswith('d'):
             nd = int(a[1:]); cs = [var('a%d_%d' % (i, k)) for k in range(nd)]
@@ -62,6 +66,9 @@ def build_args(ob, V=None):
                 for c in cs: assume.append(z3.And(z3.UGE(c, 48), z3.ULE(c, 57)))
                 assume.append(cs[0] != 48)
             args.append(cs); arg_syms.append(('dec', cs))
+        elif isinstance(a, tuple) and a[0] == 'L':
+            # long item: all bytes concrete except the last one (the line printed for it is 2n characters long)
+            cs = hexchars('a%d' % i, 1); full = list(b'ab' * (a[1] - 1)) + cs; args.append(list(b'0x') + full); arg_syms.append(('hex', full)); long_syms.append(cs)
         else:
             cs = hexchars('a%d' % i, a); args.append(list(b'0x') + cs); arg_syms.append(('hex', cs))
     argv = [list(b'btcdeb')] + [list(o.encode()) for o in ob['opts']]
@@ -69,7 +76,7 @@ def build_args(ob, V=None):
     if ob['mode'] == 'out': tty = (1, 0, 1); argv += [sc_chars] + args
     elif ob['mode'] == 'in': tty = (0, 1, 1); stdin = sc_chars + [10]; argv += args
     else: tty = (0, 0, 1); stdin = sc_chars + [10]; argv += args
-    inputs = dict(args=[cs for _, cs in arg_syms], sc=[cs for _, cs in sc_syms])
+    inputs = dict(args=[[c for c in cs if is_sym(c)] if sym else cs for _, cs in arg_syms], sc=[cs for _, cs in sc_syms])
     return argv, tty, stdin, assume, toks, sc_syms, arg_syms, inputs
 
 def reference(ctx, ob, toks, sc_syms, arg_syms):
